@@ -104,6 +104,17 @@ fn l4(p: &str, v: u8, src: &[u8], dst: &[u8]) -> (u8, Vec<u8>) {
             (if v == 4 { 1 } else { 58 }, m)
         }
         "udp-open" => (17, udp_datagram(5555, 7000, b"datagram-for-open-port")),
+        "hbh-unk" => {
+            let mut s6 = [0u8; 16];
+            let mut d6 = [0u8; 16];
+            s6.copy_from_slice(src);
+            d6.copy_from_slice(dst);
+            let inner = ipv6_packet(s6, d6, 17, 64, &udp_datagram(5555, 7000, b"behind-an-unknown-option"), true);
+            // hop-by-hop header: next header UDP, length 0 (8 octets), option 0xde (unknown; discard, report unless multicast)
+            let mut m = vec![17u8, 0, 0xde, 4, 0, 0, 0, 0];
+            m.extend_from_slice(&inner[40..]);
+            (0, m)
+        }
         "udp-bound" => (17, udp_datagram(5555, 7002, b"datagram-for-bound-port")),
         "syn-bound" => (6, tcp_seg(82, true, false, false)),
         "ns" => {
